@@ -249,7 +249,7 @@ var fillers = [][]string{nil, {"# a comment"}, {""}, {"   # indented comment", "
 func funcsRule(tier string) string {
 	return fmt.Sprintf("%d first definitions (bodies over {0},{1},{2},{key}, missing and lazy arguments, a rebinding @map, typed and constant-only helper arguments, text around statements) and %d second definitions calling the first (nested, inside a builtin, with a key argument, inside @map); "+
 		"every layout of a definition over its argument separators with up to 2 line breaks x 7 continuation styles (backslash, backslash + trailing comment, comment line or blank line inside the continuation, tab / no indentation, two blanks before the backslash) and an optional trailing comment, x 4 fillers (none, comment, blank, indented comment + blank) before and between definitions, loaded through LoadDefinitionsFile from a real file (one call site per layout) or LoadDefinitions, then TryAddFunctions as main.go does; "+
-		"call sites with 1..3 arguments from {2, a, 'a b', {0}, {1}, {key}, {sumi {0} 1}} (all pairs in the thorough tier), a nested call of the function itself, a call inside a builtin, inside @map and between text; 5 contexts; compared with the harness's tree-level inlining evaluated by the builtin table, for the optimising and the plain call-site build (tier %s); %s; %s; %s", len(firstDefs()), len(secondDefs("f")), tier, longRule(tier), namesRule(tier), deliveryRule(tier))
+		"call sites with 1..3 arguments from {2, a, 'a b', {0}, {1}, {key}, {sumi {0} 1}} (all pairs in the thorough tier), a nested call of the function itself, a call inside a builtin, inside @map and between text; 5 contexts; compared with the harness's tree-level inlining evaluated by the builtin table, for the optimising and the plain call-site build (tier %s); %s; %s; %s; %s", len(firstDefs()), len(secondDefs("f")), tier, longRule(tier), namesRule(tier), sharedRule(tier), deliveryRule(tier))
 }
 
 func clearAdditional() {
@@ -387,6 +387,7 @@ func (e *env) funcsPhase(unit *int64) {
 	}
 	e.longPhase(unit)
 	e.namesPhase(unit)
+	e.sharedPhase(unit)
 	e.deliveryPhase(unit)
 }
 
@@ -397,6 +398,10 @@ func (e *env) funcsReplay(c Case) {
 	}
 	if c.Names != nil {
 		e.namesOne(*c.Names)
+		return
+	}
+	if c.Shared != nil {
+		e.sharedOne(*c.Shared)
 		return
 	}
 	// rebuild from the recorded texts; the definitions are recovered by name
